@@ -385,6 +385,31 @@ def mvnd_obligations(chk):
                         note="rank-0 precision: the range space is {0}, the density on it is 1")
         obs.append(Obligation(f"MVND {nm0} with the rank given as a Python int: log-density is 0 everywhere (0-dimensional range space, log-pdet 0)", [e_0], g_zero,
                               signature="mvnd:rank0:" + nm0.split("(")[0], replay=replay_zero, timeout_s=60))
+    # --- float32 range: the log-pseudo-determinant is a SUM of logs (a product of eigenvalues leaves float32's range long before its log does)
+    from liesel.distributions.mvn_degen import _log_pdet
+    F32 = z3.Float32()
+    evf = sym_array("lpd_ev", (3,), F32)
+    e_lp = chk.note_enc(Enc("_log_pdet(eigenvalues (3,), rank from the tolerance) in float32", lambda ev: _log_pdet(ev), (jnp.asarray([0.0, 2.0, 3.0]),), (evf,), mode="fp32"))
+
+    def g_lpd(V):
+        logf = V.I.fn("log", F32, F32)
+        one, tol = z3.FPVal(1.0, F32), z3.FPVal(float(np.float32(1e-6)), F32)
+        sel = [z3.If(z3.fpGT(e_, tol), e_, one) for e_ in evf]
+        want = z3.fpAdd(z3.RNE(), z3.fpAdd(z3.RNE(), logf(sel[0]), logf(sel[1])), logf(sel[2]))
+        alt = z3.fpAdd(z3.RNE(), logf(sel[0]), z3.fpAdd(z3.RNE(), logf(sel[1]), logf(sel[2])))
+        out = cells(V.out)[0]
+        return [z3.Not(z3.fpIsNaN(e_)) for e_ in evf], z3.Or(out == want, out == alt)
+
+    def replay_lpd(ob, model, rng):
+        for ev in ([1e-3, 1e20, 1e20], [1e-20 * 1e14, 1e-18, 1e-19], [0.0, 3e19, 4e19]):
+            a = np.asarray(ev, dtype=np.float32)
+            got = float(np.asarray(_log_pdet(jnp.asarray(a))))
+            want = float(np.sum(np.log(np.where(a > np.float32(1e-6), a, np.float32(1.0)).astype(np.float64))))
+            if not (np.isfinite(got) and abs(got - want) <= 1e-3 * (1 + abs(want))):
+                return dict(reproduced=True, inputs=dict(eigenvalues=[float(t) for t in a]), observed=dict(log_pdet=repr(got), sum_of_logs=want), note="float32 eigenvalues whose product leaves the float32 range")
+        return dict(reproduced=False, note="log_pdet = sum of logs at three eigenvalue triples with products outside the float32 range")
+    obs.append(Obligation("_log_pdet (float32): the sum of the logs of the selected eigenvalues, term by term (for every float32 eigenvalue triple, also where their product over- or underflows)",
+                          [e_lp], g_lpd, signature="mvnd:log-pdet-fp32", replay=replay_lpd, timeout_s=60))
     # --- a non-default tolerance governs density AND sampler alike
     K2 = np.diag([2.0, 1e-4]).astype(np.float32)
     vt = z3.Real("var_tol")
